@@ -202,6 +202,14 @@ def shard(P, idx, n, seed):
 
 
 def run(R):
+    _run(R)
+    # coverage-guided fuzzing (atheris/libFuzzer) with the same oracle
+    from .. import fuzz
+    fuzz.session(R, "C13", R.pick(10000, 600000), R.pick(4, 16))
+    R.require("atheris-executions")
+
+
+def _run(R):
     R.rule = RULE
     R.require("total", "sound", "complete", "unique")
     R.assumptions = ["the supplied string of a returned object is observed through as_json()['vectorString'] (C11)",
